@@ -184,6 +184,9 @@ R_LOOP = _rule("R-LOOP", "r_loop", text="a loop that may run zero times keeps it
 R_HASH = _rule("R-HASH", "r_hash", text="SHA-256 finalisation and the HMAC key schedule: the pad length, evaluated for all 64 buffer fills, brings the buffer to 56 mod 64 with "
                "at least one pad byte and stays inside the pad array; the size descriptor is the 64-bit bit count (exact forms); a key is used unhashed exactly up to the "
                "block size; the outer / inner hashes absorb key ^ 0x5c / key ^ 0x36")
+R_HSTATE = _rule("R-HSTATE", "r_hstate", text="typestate of SHA-256 / HMAC state objects: a write or finalize never follows a finalize of the same object without a new "
+                 "initialisation (forward may-analysis over the CFG of every function that finalises a hash state; anything else that touches the object counts as a "
+                 "re-initialisation, so only the definite pattern is reported)")
 R_ARGS = _rule("R-ARGS", "r_args", text="a call that passes two variables named like two parameters of the callee passes them in the callee's order (expected count of crossed "
                "calls is zero; a synthetic crossed call is the positive control)")
 R_COMB = _rule("R-COMB", "r_comb", text="the fixed-base comb multiplication for every supported table size (43x6, 11x6, 2x5): walking secp256k1_ecmult_gen with concrete control "
@@ -218,7 +221,7 @@ def _prop(pid, rules, head, not_decided, **kw):
 
 _BOUND_ASSUME = ["distinct pointer parameters do not alias", "summaries: secp256k1_count_bits_set(d, c) in [0, 8c]; clz/ctz ranges"]
 
-ALL_RULES = DECODE + BOUNDS + [R_FLOW, R_ZOF, R_BIND, R_DOM, R_PAIR, R_SIZE, R_LIMB, R_HASH, R_ARGS, R_GEP]
+ALL_RULES = DECODE + BOUNDS + [R_FLOW, R_ZOF, R_BIND, R_DOM, R_PAIR, R_SIZE, R_LIMB, R_HASH, R_ARGS, R_GEP, R_HSTATE]
 
 _prop("C01", ALL_RULES,
       "ECDSA, structural clauses (the recovery module is analysed although the pinned build omits it).",
@@ -232,7 +235,7 @@ _prop("C03", ALL_RULES,
 _prop("C04", ALL_RULES,
       "Key algebra, structural clauses.",
       "commutation of secret and public operations, correctness of heap sort beyond its length argument, lexicographic order")
-_prop("C05", [R_FLOW, R_PAIR, R_CONST, R_PACK, R_CAP, R_LIMB, R_HASH, R_COMB, R_GEP],
+_prop("C05", [R_FLOW, R_PAIR, R_CONST, R_PACK, R_CAP, R_LIMB, R_HASH, R_COMB, R_GEP, R_HSTATE],
       "Arithmetic and hashing kernel — the clauses with a structural part: (hashing) caller lengths reach secp256k1_sha256_write unmodified "
       "(tagged hash, HMAC), sha256_write moves data pointer and remaining length together, sha256_transform compresses consecutive blocks; "
       "scratch checkpoints of the multi-scalar batches are restored on every exit; (data) every numeric constant and every entry of the precomputed ecmult / ecmult_gen "
